@@ -35,7 +35,7 @@ PROPS = {
     "C06": dict(level="fault_enumeration"),
     "C07": dict(level="exploration", race=True, shards=(1, 4)),
     "C08": dict(level="exploration"),
-    "C09": dict(level="exploration"),
+    "C09": dict(level="exploration", cli=True),
     "C10": dict(level="exploration"),
     "C11": dict(level="exploration"),
     "C12": dict(level="exploration"),
@@ -233,6 +233,16 @@ def check(pid, tier):
             inconclusive.append("shard %d recorded nothing for %s" % (s["shard"], pid))
         if rc not in (0, 1) and rc is not None and os.path.exists(s["out"]):
             inconclusive.append("shard %d exit status %s" % (s["shard"], rc))
+        if race:
+            logtxt = open(s["log"]).read()
+            if "WARNING: DATA RACE" in logtxt:
+                # backstop: a race report outside a recorded case (worker, known-finding replay)
+                os.makedirs(os.path.join(ROOT, "replays", pid), exist_ok=True)
+                rp = os.path.join(ROOT, "replays", pid, "race-shard%d.log" % s["shard"])
+                i = logtxt.index("WARNING: DATA RACE")
+                open(rp, "w").write(logtxt[i:i + 20000])
+                if not any((f.get("signature") == "data-race") for f in merged["failures"]):
+                    merged["failures"].append(dict(prop="race-detector", message="race detector report in shard log", replay=rp, signature="data-race"))
         if rc == 1 and found and not any(True for r in recs if r["property_id"] == pid and r.get("failures")):
             # the go test failed without a recorded failure: harness trouble, not a verdict
             tail = open(s["log"]).read()[-1500:]
